@@ -269,6 +269,13 @@ fn events_now() -> Vec<Value> {
 
 /// Send `flight` in `segs` over loopback to the real prebuffer loop. In lock-step mode each
 /// segment is sent only after the loop has consumed the previous one (or has finished).
+/// scenarios in which the real loop did not get on: the first few wait long (load), later ones briefly - a loop that
+/// hangs is reported with every scenario it hangs on, without the job taking hours
+static STUCK: std::sync::atomic::AtomicUsize = std::sync::atomic::AtomicUsize::new(0);
+fn stuck_wait() -> Duration {
+    match STUCK.load(std::sync::atomic::Ordering::Relaxed) { 0..=1 => Duration::from_secs(60), 2..=7 => Duration::from_secs(3), _ => Duration::from_millis(300) }
+}
+
 async fn run_peek(flight: &[u8], segs: &[usize], close: bool, lockstep: bool) -> Result<PeekObs, String> {
     run_peek_paused(flight, segs, close, lockstep, Duration::ZERO).await
 }
@@ -345,8 +352,9 @@ async fn run_peek_paused(flight: &[u8], segs: &[usize], close: bool, lockstep: b
                 if peek_done || consumed >= pos {
                     break;
                 }
-                if t0.elapsed() > Duration::from_secs(120) {
-                    return Err(format!("the prebuffer loop did not consume {} sent bytes within 120 s (consumed {})", pos, consumed));
+                if t0.elapsed() > stuck_wait() {
+                    STUCK.fetch_add(1, std::sync::atomic::Ordering::Relaxed);
+                    return Err(format!("the prebuffer loop did not consume {} sent bytes within {:?} (consumed {})", pos, stuck_wait(), consumed));
                 }
                 tokio::time::sleep(Duration::from_millis(1)).await;
             }
@@ -359,9 +367,9 @@ async fn run_peek_paused(flight: &[u8], segs: &[usize], close: bool, lockstep: b
         trace.push(json!({"ev": "ClientClose"}).to_string());
         let _ = c.shutdown().await;
     }
-    let r = tokio::time::timeout(Duration::from_secs(180), server).await;
+    let r = tokio::time::timeout(stuck_wait() * 2, server).await;
     let (random, pre, got, log) = match r {
-        Err(_) => return Err("the peek / read-back did not finish within 180 s".into()),
+        Err(_) => { STUCK.fetch_add(1, std::sync::atomic::Ordering::Relaxed); return Err(format!("the peek / read-back did not finish within {:?}", stuck_wait() * 2)); }
         Ok(Err(e)) => return Err(format!("server task: {}", e)),
         Ok(Ok(Err(e))) => return Err(format!("peek failed: {}", e)),
         Ok(Ok(Ok(x))) => x,
